@@ -222,6 +222,26 @@ def rendered_texts(ctx: Ctx):
                 continue
     finally:
         c09.LABEL_POOL[:] = saved_pool
+    # table / sheet names with an opening bracket that is never closed (no arithmetic operator, so the reader prints them
+    # unquoted): 'Budget (draft::A1' inside SUM( ... ) - what the reader prints must be accepted
+    saved_t, saved_s = list(c09.TABLE_POOL), list(c09.SHEET_POOL)
+    try:
+        c09.TABLE_POOL[:] = ["Budget (draft", "Q1 (est.", "Table 1", "x {y", "Data"]
+        c09.SHEET_POOL[:] = ["Sheet 1", "Plan (old", "Data", "Summary"]
+        frng = _random.Random(20260930)
+        for _k in range(3):
+            cfg = c09.Config(frng)
+            for _ in range(120):
+                spec, exp = c09.gen_ref(frng, cfg)
+                try:
+                    t = c09.real_text(cfg, spec, exp)
+                except Exception:  # noqa: BLE001
+                    continue
+                texts.append(("C09", t))
+                texts.append(("C09", f"SUM({t})+1"))
+    finally:
+        c09.TABLE_POOL[:] = saved_t
+        c09.SHEET_POOL[:] = saved_s
     for _ in range(6 if ctx.quick else 60):
         cfg = c09.Config(rng)
         for _ in range(150 if ctx.quick else 600):
@@ -509,7 +529,8 @@ def run(ctx: Ctx):
             Tokenizer(f)
         except TokenizerError:
             rej += 1
-            kind = "apostrophe-in-name" if "'''" in f else ("quoted-name-after-prefix-or-colon" if re.search(r":\s*\$?'", f) else "other")
+            kind = "apostrophe-in-name" if "'''" in f else ("quoted-name-after-prefix-or-colon" if re.search(r":\s*\$?'", f) else
+                                                               "brace-in-name" if re.search(r"[{}]", f) and src == "C09" else "other")
             ctx.violation(f"reader-formula-rejected:{src}:{kind}", f"text rendered by the reader ({src} generator) is rejected by the tokenizer: {f!r}", {"text": f})
         except Exception:  # noqa: BLE001  reported by tok() below
             pass
